@@ -18,6 +18,9 @@ instance {ν : Type} (h : Hint ν) : Decidable (EvenBlues h) := by unfold EvenBl
 def ScalarsUnset {ν : Type} (h : Hint ν) : Prop :=
   h.blueFuzz = none ∧ h.blueScale = none ∧ h.blueShift = none ∧ h.forceBold = none
 
+instance {ν : Type} [DecidableEq ν] (h : Hint ν) : Decidable (ScalarsUnset h) := by
+  unfold ScalarsUnset; infer_instance
+
 /-- no feature tag occurs twice -/
 def DistinctTags (feats : List (Text × Text)) : Prop := (feats.map Prod.fst).Nodup
 
